@@ -21,6 +21,7 @@ number that rounds to zero, separators inside zero padding) is executed but
 not judged.
 """
 import concurrent.futures
+import itertools
 import json
 import multiprocessing
 import os
@@ -621,6 +622,13 @@ def run(tier, seed):
                 fut.cancel()
             raise
     v.add_tlc(_Res(cov['tlc']), 'Text_cov (TypeOK only, -coverage)')
+    # the first replay files should show every failing function, not only
+    # the first job's: interleave the kept discrepancies by function
+    by_fn = {}
+    for viol in v.violations:
+        by_fn.setdefault((viol['case']['fn'], viol['case']['via']), []).append(viol)
+    v.violations = [x for group in itertools.zip_longest(*by_fn.values())
+                    for x in group if x is not None]
     v.evaluations = total['judged']
     v.distinct.n = total['judged']
     for smp in samples[:4] + text_samples[:3]:
